@@ -32,6 +32,7 @@ pub assume_specification [TokenType::tabs] (n: usize) -> (r: TokenType) ensures 
 pub assume_specification [BinOp::precedence] (b: &BinOp) -> (r: u8);
 pub assume_specification [BinOp::is_right_associative] (b: &BinOp) -> (r: bool);
 pub assume_specification [BinOp::token] (b: &BinOp) -> (r: &TokenReference);
+pub assume_specification [UnOp::token] (b: &UnOp) -> (r: &TokenReference);
 pub assume_specification [<BinOp as Clone>::clone] (b: &BinOp) -> (r: BinOp) ensures r == *b;
 pub assume_specification [<Expression as Clone>::clone] (b: &Expression) -> (r: Expression) ensures r == *b;
 pub assume_specification [<TokenReference as Clone>::clone] (b: &TokenReference) -> (r: TokenReference) ensures r == *b;
